@@ -12,7 +12,7 @@ schema change, `exec` = the backend (fails where PostgreSQL would), `stepDDL`,
 
 Reading guide.  `run {} h = .ok st` says the history `h` was accepted by the
 schema layer and executed by the backend, starting from the empty database.
-`safeRun {} h` is the explicit guard: it excludes exactly three kinds of step on
+`safeRun {} h` is the explicit guard: it excludes exactly four kinds of step on
 which the REAL code breaks the property (each has a `…_counterexample` below,
 and is replayed on the real code by the harness):
   * renaming a pointer to/from a name starting with `__` (the column key changes,
@@ -20,7 +20,12 @@ and is replayed on the real code by the harness):
   * giving a stored property an expression of a different cardinality
     (`_delete_property` reads the storage info of the new schema);
   * `RESET EXPRESSION` on a link that has stored link properties (the link table
-    is re-created without their columns).
+    is re-created without their columns);
+  * a user link property NAMED `source` / `target` (accepted only on an abstract link
+    without concrete descendants): `_create_property` / `get_pointer_storage_info`
+    special-case the name, not the identity.
+Properties and links named `source` / `target` on OBJECT TYPES are ordinary pointers
+(`PName.plain`, column named by id): the implicit endpoints exist only on links.
 `Catalog.Equiv` is "same tables, same columns".
 -/
 import EdbVerif.Lemmas.StorageDrop2
@@ -131,7 +136,27 @@ theorem C05_setexpr_cardinality_backend_counterexample :
 theorem C05_resetexpr_lprops_counterexample :
     ∃ h st, run {} h = .ok st ∧ safeRun {} h = false ∧ ¬ st.catalog.Equiv (layout st.schema) := by
   refine ⟨[.createType 0 0 false, .createPtr ⟨1, some 0, .link, .plain 5, false, false, false, []⟩,
-           .addLProp 1 ⟨2, 6, false⟩, .setExpr 1 false, .resetExpr 1], _, rfl, by decide, ?_⟩
+           .addLProp 1 ⟨2, .other 6, false⟩, .setExpr 1 false, .resetExpr 1], _, rfl, by decide, ?_⟩
+  intro h
+  have := (h.2 (.ptr 1, .col 2)).mpr (by decide)
+  revert this; decide
+
+/-- `CREATE ABSTRACT LINK al { CREATE PROPERTY source -> str }` then `DROP PROPERTY source`:
+    the storage code special-cases the NAME `source` / `target` of a link property, so the
+    user property shares (and on drop removes) the link table's real `source` column. -/
+theorem C05_lprop_named_source_counterexample :
+    ∃ h st, run {} h = .ok st ∧ safeRun {} h = false ∧ ¬ st.catalog.Equiv (layout st.schema) := by
+  refine ⟨[.createPtr ⟨1, none, .link, .plain 5, true, false, false, []⟩,
+           .addLProp 1 ⟨2, .source, false⟩, .dropLProp 1 2], _, rfl, by decide, ?_⟩
+  intro h
+  have := (h.2 (.ptr 1, .source)).mpr (by decide)
+  revert this; decide
+
+/-- a user link property named `target` never gets its column -/
+theorem C05_lprop_named_target_counterexample :
+    ∃ h st, run {} h = .ok st ∧ safeRun {} h = false ∧ ¬ st.catalog.Equiv (layout st.schema) := by
+  refine ⟨[.createPtr ⟨1, none, .link, .plain 5, true, false, false, []⟩,
+           .addLProp 1 ⟨2, .target, false⟩], _, rfl, by decide, ?_⟩
   intro h
   have := (h.2 (.ptr 1, .col 2)).mpr (by decide)
   revert this; decide
@@ -144,7 +169,7 @@ def exHistory : List DDL :=
     .createPtr ⟨2, some 0, .prop, .plain 1, true, false, false, []⟩,
     .createType 3 2 false,
     .createPtr ⟨4, some 3, .link, .plain 3, true, false, false, []⟩,
-    .addLProp 4 ⟨5, 4, false⟩,           -- single link gets a link table
+    .addLProp 4 ⟨5, .other 4, false⟩,    -- single link gets a link table
     .setSingle 2 false,                  -- property moves to its own table
     .renamePtr 2 (.plain 9),
     .setSingle 4 false,                  -- link table already exists (conditional create skipped)
